@@ -46,6 +46,14 @@ FPS_ARGS = [[5, 0.5], [6, 0.5, 0.3], [4], [7, 0.25, 0.6]]
 UNKNOWN = ["polytoangles", "Invert", "hamsim2", "", "phases"]
 
 
+def _strip(l):
+    """a coefficient list as a polynomial: high-order zero padding removed"""
+    l = list(l)
+    while l and l[-1] == 0:
+        l.pop()
+    return l
+
+
 def fmt_list(vals, bracket, style=0):
     """style 0: shortest repr; 1: C exponent notation (5.0e-01); 2: numpy-like (trailing dot, signed exponents)"""
     if style == 1:
@@ -180,7 +188,8 @@ def run(ctx):
             continue
         if c["cmd"] == "poly2angles" and q:
             # what reached the phase finder must be the --poly list, whether or not the library could serve it
-            if [fr(v) for v in q[0]["poly"]] != [fr(hexf(float(v))) for v in c["exp_args"]]:
+            # compared as polynomials (high-order zero padding may be dropped by a front end; low-order coefficients may not move)
+            if _strip([fr(v) for v in q[0]["poly"]]) != _strip([fr(hexf(float(v))) for v in c["exp_args"]]):
                 ctx.fail("cli", c, "the polynomial handed to the phase finder (%d coefficients) differs from the --poly coefficients (%d)" %
                          (len(q[0]["poly"]), len(c["exp_args"])))
                 continue
@@ -219,7 +228,7 @@ def run(ctx):
             for k, x in enumerate(q):
                 handed = x["poly"]
                 src = g[k]["out"] if g else [hexf(float(v)) for v in c["exp_args"]]
-                if [fr(v) for v in handed] != [fr(v) for v in src]:
+                if (_strip([fr(v) for v in handed]) != _strip([fr(v) for v in src])) if not g else ([fr(v) for v in handed] != [fr(v) for v in src]):
                     ctx.fail("cli", c, "the polynomial handed to the phase finder differs from the %s" % ("generator's output" if g else "--poly coefficients"))
                     bad = True
                 kw = x["kw"]
